@@ -62,9 +62,18 @@ MUTANTS = {
     "c18_symbols_leak": ("C18", "as.c", "    ClearSymbolList();\n    ClearCodepages();\n    ClearMacroList();", "    ClearCodepages();\n    ClearMacroList();", 1,
                          [("asmpars.c", "void AsmParsInit(void) {\n    FirstSymbol = NULL;\n", "void AsmParsInit(void) {\n")]),
     "c18_dotted_not_reset": ("C18", "as.c", "    DottedStructs = False;\n", ""),
+    # (the coordinator's seeded miss: only the OLMS-50 target sets SwitchIsOccupied; needs t_olms50 somewhere before a
+    #  source using SWITCH in the same invocation -> corpus chains)
+    "c18_switch_occupied_leaks": ("C18", "asmallg.c", "    SwitchIsOccupied = PageIsOccupied = ShiftIsOccupied = False;",
+                                  "    PageIsOccupied = ShiftIsOccupied = False;"),
+    "c18_page_occupied_leaks": ("C18", "asmallg.c", "    SwitchIsOccupied = PageIsOccupied = ShiftIsOccupied = False;",
+                                "    SwitchIsOccupied = ShiftIsOccupied = False;"),
+    "c18_onoff_table_leaks": ("C18", "asmallg.c", "    if (SwitchFrom) {\n        ClearONOFF();\n", "    if (SwitchFrom) {\n"),
     # ---- C17 -------------------------------------------------------------------------------------------
     "c17_splitbyte_funcargs": ("C17", "tempresult.c", "        sprintf(Str, \"%\" PRId64, pResult->Contents.Int);\n        as_sdprcatf(p_dest, \"%s\", Str);",
                                "        as_sdprcatf(p_dest, \"%\" PRId64, pResult->Contents.Int);"),
+    # (the coordinator's seeded miss: -h changes the exponent letter the packed-decimal converter searches for)
+    "c17_h_breaks_packed_decimal": ("C17", "motpseudo.c", "    pSplit = strchr(s, HexStartCharacter + ('e' - 'a'));", "    pSplit = strchr(s, 'E');"),
     "c17_s_sets_relaxed": ("C17", "as.c", "    MakeSectionList = !Negate;\n    return CMDOK;", "    MakeSectionList = !Negate;\n    DefRelaxedMode  = !Negate;\n    return CMDOK;"),
     "c17_debug_moves_pc": ("C17", "asmsub.c", "        AddSectionUsage(ProgCounter(), CodeLen);\n", "        AddSectionUsage(ProgCounter(), CodeLen);\n        if (CodeLen > 2) PCs[ActPC]++;\n"),
     "c17_uselist_drops_code": ("C17", "asmsub.c", "            WrError(ErrNum_Overlap);\n        }\n    }", "            WrError(ErrNum_Overlap);\n        }\n        if (CodeLen == 3) CodeLen = 2;\n    }"),
